@@ -307,6 +307,24 @@ def check_case(case):
                 continue
             raise Violation("helpers.nan_raises." + name, "predict_%s returned although a prediction is NaN" % name)
 
+    # a plate view that was predicted on and then GROWN in place (Plate.merge): its predictions are those of its current rows
+    grown = S.build_screen(sc, treatment_mapping=tm, sample_mapping=sm)
+    pls = sorted(grown.plates, key=lambda p_: int(p_.plate_id))
+    if len(pls) >= 2:
+        with np.errstate(all="ignore"):
+            th0 = holder.thetas[0]
+            whole = np.asarray(th0.predict_conditional_mean(grown), dtype=float)
+            pa, pb = pls[case["perm_seed"] % len(pls)], pls[(case["perm_seed"] // 3 + 1) % len(pls)]
+            if pa is not pb and int(pa.plate_id) != int(pb.plate_id):
+                th0.predict_conditional_mean(pa), th0.predict_viability(pa), pa.size
+                pa.merge(pb)
+                now = np.asarray(pa.selection_vector)
+                got = np.asarray(th0.predict_conditional_mean(pa), dtype=float)
+                require(got.shape == (int(now.sum()),) and _close(got, whole[now]), "mean.plate_after_merge", lambda: "a plate predicted on, merged with another plate and predicted on again gives %r; the whole-screen entries of its current rows are %r" % (got.tolist(), whole[now].tolist()))
+                allm = np.asarray(mm.predict_mean_all(screen=pa, thetas=holder), dtype=float)
+                if not np.isnan(allm).any():
+                    require(allm.shape == (len(holder.thetas), int(now.sum())), "mean_all.plate_after_merge", lambda: "predict_mean_all on a merged plate has shape %r for %d rows" % (allm.shape, int(now.sum())))
+
     c0 = bool(np.any(tid[:, 0] == -1))
     c1 = bool(np.any(tid[:, 1] == -1))
     combo = bool(np.any((tid != -1).all(axis=1)))
